@@ -43,7 +43,7 @@ CHECKS = {
         "the model is compared with /repo's CircuitBreaker inside Coq on random boundary-biased and exhaustively enumerated "
         "small histories; disagreements that start while the model is CLOSED are attributed to C06.",
         "Trusted: Coq kernel + vm_compute; pyir_circuit.py and the interpreter PyIRH.exec (the meaning given to the translated Python "
-        "fragment; __init__ is not translated); hand-written model Breaker.v (proved equal to the translated methods, and compared "
+        "fragment, constructor included); hand-written model Breaker.v (proved equal to the translated methods, and compared "
         "with the running code by the correspondence); Python driver, virtual "
         "clock; non-decreasing clock; 1/64 s grid; constructor preconditions.",
         "DESIGN.md §5 C06",
